@@ -4,11 +4,16 @@ class P(vlib.Prop):
     id = "C13"
     watch = ("pkg/build/accounts.go", "pkg/build/paths.go", "pkg/build/build_implementation.go", "pkg/passwd/*.go", "pkg/tarfs/fs.go", "pkg/apk/fs/memfs.go", "pkg/build/oci/image.go")
     rule = ("accounts stage: hand-picked corners (defaults, colliding names, uid 2^32-1, /dev/null homes, pre-existing homes of each kind, "
-            "symlinked/dangling/looping homes, malformed and odd pre-existing passwd/group text, signed/oversized ids), then random account lists over "
-            "random trees, on apkfs.NewMemFS() and tarfs.New(), through the real mutateAccounts; "
+            "symlinked/dangling/looping homes, malformed and odd pre-existing passwd/group text, signed/oversized ids, member-less groups), then random account lists over "
+            "random trees, on apkfs.NewMemFS() and tarfs.New(), through the real mutateAccounts; the repository's own ReadUserFile/ReadGroupFile are compared with the model's parsers on the initial and final files; "
             "paths stage: hand-picked corners then random sequences of the five mutation types (overlapping paths, recursive flags, symlinked parents, "
             "modes with and without special bits) through the real mutatePaths, observed after every prefix of the sequence; both stages serialise the "
-            "result with the repository's writeTar and read it back with archive/tar. A case is non-trivial when something is configured; distinct = distinct case terms.")
+            "result with the repository's writeTar and read it back with archive/tar; "
+            "e2e stage: generated image configurations (users with default/explicit/existing/symlinked homes, groups, run-as by configured / package-provided / colliding / unknown name and numeric, "
+            "path mutations of every type below users' homes, on the homes, on package-shipped directories and files, through symlinks, recursive, on etc/passwd, etc/group, etc/apko.json) over synthetic signed packages "
+            "(with and without etc/passwd, etc/group) go through the REAL pipeline: build.New + BuildLayer + oci.BuildImageFromLayer on apkfs.NewMemFS() and on tarfs.New(), and the apko CLI built from the tree; "
+            "the emitted layer is untarred by the harness's own reader and the validators judge passwd/group, config.User, every home ('already existed' = before this build's declarations and earlier accounts) "
+            "and every declared mutation not touched by a later one; the whole layer is compared with the pipeline model. A case is non-trivial when something is configured; distinct = distinct case terms.")
     stages = (
         dict(name="accounts", cmd="c13", args=lambda t, s: ["-stage", "accounts"]),
         dict(name="paths", cmd="c13", args=lambda t, s: ["-stage", "paths"]),
@@ -18,18 +23,24 @@ class P(vlib.Prop):
         "path strings are modelled by their non-empty '/'-separated components plus 'absolute' and 'trailing slash' flags; creating a directory entry literally named '.', '..' or '/' is outside the model (the generators never do it)",
         "strings.TrimSpace is modelled for ASCII white space only; bufio's 64 KiB line limit as 'a line of 65535 bytes or more is an error'",
         "the group and passwd goroutines of mutateAccounts are modelled sequentially (group first); they touch disjoint files unless a home lies at or under etc/group",
-        "generated trees contain no hard-linked directories (a cycle makes fs.WalkDir recurse forever) and no package-backed (tar entry) files",
+        "generated trees contain no hard-linked directories (a cycle makes fs.WalkDir recurse forever); package-backed (tar entry) files occur in the e2e stage only",
+        "e2e stage: permissions up to 0o777, no package-shipped hard links, mutation paths outside /dev and /tmp, no services and no busybox package (the later pipeline steps are the identity in the model)",
         "permissions values are below 2^19 so that they cannot collide with Go's FileMode type bits",
     )
     level_text = ("Theorems in Properties/C13.v hold for every account list, run-as name, pre-existing passwd/group text, tree and mutation sequence (unbounded), about an "
-                  "executable model of mutateAccounts / mutatePaths over a heap-of-nodes model of the two in-memory filesystems; constants and format strings are "
-                  "regenerated from the source on every run; the model is tied to the code by differential comparison of error/no error, passwd/group text, run-as, "
-                  "every path's kind/mode/uid/gid/target and the tar layer, and the validators are run on what the real code produced.")
-    level_note = ("trusted: Coq kernel, goextract, Go harness/printer; modelled not verified: the Go text of accounts.go/paths.go/passwd.go/group.go and of the two in-memory "
-                  "filesystems, archive/tar, fs.WalkDir; correspondence is differential testing, not proof")
+                  "executable model of mutateAccounts / mutatePaths / the step order of buildImage over a heap-of-nodes model of the two in-memory filesystems (tar-entry-backed files of tarfs included): "
+                  "passwd/group = old ++ configured and the text-level round trip of the codec; run-as = first match; homes in full (the created node is what Stat finds, 0700 and owner, parents 0755, nothing else changes, "
+                  "also at the end of the whole loop); per mutation: mode/owner of what the path resolves to, kind of what sits at the path, coverage of the recursive walk, and a frame theorem (kinds and link targets never change, "
+                  "changed modes/owners are declared ones, a simple mutation changes at most the node its path resolves to); fuel of walk/dump proved sufficient on well-formed heaps; constants, formats, the mutator table and the "
+                  "order of buildImage's steps are regenerated from the source on every run; the model is tied to the code by differential comparison of error/no error, passwd/group text and parsed entries, run-as, "
+                  "every path's kind/mode/uid/gid/target and the tar layer — for the two functions alone and for whole builds through build.New/BuildLayer and the CLI — and the validators are run on what the real code produced.")
+    level_note = ("trusted: Coq kernel, goextract, Go harness/printer and its tar reader/resolver, harness/synthrepo; modelled not verified: the Go text of accounts.go/paths.go/passwd.go/group.go/build_implementation.go and of the two in-memory "
+                  "filesystems, archive/tar, fs.WalkDir, the apk installer (its output is taken as the pipeline model's start tree); correspondence is differential testing, not proof; "
+                  "not proved: empty-file at path level, exact touched set of a recursive walk, wf preservation for Remove/Link/openFile/Symlink")
     design_ref = "DESIGN.md 7 C13"
-    modelled_not_verified = ("mutateAccounts, userToUserEntry, mutatePaths and the five mutators, UserEntry/GroupEntry Parse/Write and the memfs/tarfs operations they call are "
-                             "modelled by hand (Model/C13Fs.v, Model/Accounts.v, Model/PathMut.v); default shell/home/modes, the homeless marker, the two Fprintf formats, field "
-                             "counts, separators, maxLinks and Create's mode are regenerated from the source; Validate and BuildImageFromLayers (config.User := RunAs) are exercised by the harness only")
+    modelled_not_verified = ("mutateAccounts, userToUserEntry, mutatePaths and the five mutators, UserEntry/GroupEntry Parse/Write, the memfs/tarfs operations they call and the order of buildImage's steps are "
+                             "modelled by hand (Model/C13Fs.v, Model/Accounts.v, Model/PathMut.v, Model/C13Build.v); default shell/home/modes, the homeless marker, the two Fprintf formats, field "
+                             "counts, separators, maxLinks, Create's mode, the list of buildImage's calls in source order, etc/apko.json's path and mode, the empty-member guard of GroupEntry.Parse and tarfs' truncation behaviour "
+                             "are regenerated from the source; Validate, WriteSupervisionTree, installBusyboxLinks, installCharDevices and BuildImageFromLayers (config.User := RunAs) are exercised by the e2e stage only")
 
 PROP = P()
